@@ -221,12 +221,16 @@ type Case struct {
 func Execute(h History, laws *Laws) *Case {
 	c := &Case{H: h}
 	s := NewSession(h.Cfg)
-	for _, rd := range h.Reads {
+	// the reads in order on one provider; reads joined by Same on one *restful.Request, directly or as
+	// the stages of one container dispatch (Session.Run). The model has no request object: to it every
+	// read is a read of the headers and the body that are on the request at that moment
+	obs := s.Run(h.Reads)
+	for i, rd := range h.Reads {
 		or := OracleOf(rd)
 		if laws != nil {
 			laws.Validate(rd, or)
 		}
-		c.Reads = append(c.Reads, ReadResult{Read: rd, Oracle: or, Real: s.ReadOne(rd)})
+		c.Reads = append(c.Reads, ReadResult{Read: rd, Oracle: or, Real: obs[i]})
 	}
 	for i := range c.Reads {
 		c.Reads[i].Alone = NewSession(h.Cfg).ReadOne(c.Reads[i].Read)
@@ -478,7 +482,10 @@ func (c *Case) specReason(r ReadResult) string {
 		why = append(why, "syntax broken for the selected reader, yet no error")
 	}
 	if r.Real.Key2() != r.Alone.Key2() {
-		why = append(why, "result differs from the same request read alone on a fresh provider: "+r.Alone.Key2())
+		why = append(why, "result differs from the same request read alone (a request of its own, a fresh provider): "+r.Alone.Key2())
+	}
+	if r.Read.Same {
+		why = append(why, "(this read is a later ReadEntity on the *restful.Request of the read before it, its body put in place)")
 	}
 	if e := r.Real.Events; e != "" && !(strings.HasPrefix(e, "a") && strings.HasSuffix(e, "r") && strings.Count(e, "a") == 1 && strings.Count(e, "r") == 1) {
 		why = append(why, "pooled reader ledger "+e+" (a = acquire, u = body read, r = release; the release must come last, once)")
@@ -499,13 +506,14 @@ func Human(c *Case) map[string]interface{} {
 			"body_is":       fmt.Sprintf("%s value (%s) written by %s pretty=%v, coded %q (gzip level %d; %s), then: %s", r.Read.Kind, r.Read.Val.Type, r.Read.API, r.Read.Pretty, r.Read.Coding, r.Read.Level, r.Read.Enc, r.Read.Status),
 			"value_written": Canon(r.Read.Val.V), "target": fmt.Sprintf("%T", r.Read.Val.NewTarget()), "value_type": r.Read.Val.Type,
 			"kind": r.Read.Kind, "faithful": r.Read.Faithful, "written_hex": hex.EncodeToString(r.Read.Written),
+			"same_request_as_previous": r.Read.Same && i > 0, "group_runs_inside_a_container_dispatch": r.Read.Dispatch, "performed_by": StageOf(c.H.Reads, i),
 			"real": r.Real.Key() + " " + r.Real.Detail, "real_ledger": r.Real.Events, "alone_on_fresh_provider": r.Alone.Key(),
 			"model": r.ModelRaw, "model_path": r.Tag, "predicate": r.S, "class_of_repaired_F61": r.F61, "class_of_repaired_F62": r.F62,
 		})
 	}
 	return map[string]interface{}{"provider": fmt.Sprintf("%s cap=%d", c.H.Cfg.Provider, c.H.Cfg.Cap), "provider_kind": c.H.Cfg.Provider, "provider_capacity": c.H.Cfg.Cap, "default_request_content_type": c.H.Cfg.Default,
 		"registry": c.H.Cfg.Registry, "reads": reads,
-		"how_to_replay": "SetCompressorProvider(provider); DefaultRequestContentType(default); for each read in order: restful.NewRequest(&http.Request{Header: {Content-Type, Content-Encoding}, Body: body}).ReadEntity(new(target))"}
+		"how_to_replay": "SetCompressorProvider(provider); DefaultRequestContentType(default); for each read in order: req := restful.NewRequest(&http.Request{Header: {Content-Type, Content-Encoding}, Body: body}); req.ReadEntity(new(target)) — a read with same_request_as_previous is performed on the req of the read before it: set the two headers, req.Request.Body = body, req.ReadEntity(new(target)); performed_by says whether the harness called ReadEntity directly or from a filter / the route function of one container dispatch (POST /e/r)"}
 }
 
 // ---- shrinking ----
@@ -550,6 +558,26 @@ func Shrink(h History, bad func(History) bool) History {
 				c := h
 				c.Reads = append([]Read{}, h.Reads...)
 				c.Reads[i].Coding, c.Reads[i].CE, c.Reads[i].Body = "", "", append([]byte{}, rd.Written...)
+				if try(c) {
+					h, changed = c, true
+				}
+			}
+		}
+		for i := range h.Reads {
+			// a request of its own instead of the one of the read before; ReadEntity called directly
+			// instead of from the stages of a container dispatch
+			if h.Reads[i].Same {
+				c := h
+				c.Reads = append([]Read{}, h.Reads...)
+				c.Reads[i].Same = false
+				if try(c) {
+					h, changed = c, true
+				}
+			}
+			if h.Reads[i].Dispatch {
+				c := h
+				c.Reads = append([]Read{}, h.Reads...)
+				c.Reads[i].Dispatch = false
 				if try(c) {
 					h, changed = c, true
 				}
@@ -698,6 +726,8 @@ func Check(run *report.Run, nReads int) error {
 	// how often the stream visits the classes of the repaired findings F61 and F62, and with what around it
 	former := map[string]int{}
 	former62 := map[string]int{}
+	// reads that are a later ReadEntity on the same *restful.Request
+	multi := map[string]int{}
 	base := rng.New(run.Seed*1000003 + 16)
 	specReported, mismatchReported := 0, 0
 	histories, reads, idx := 0, 0, uint64(0)
@@ -757,7 +787,33 @@ func Check(run *report.Run, nReads int) error {
 			soft.Ledger += c.Soft.Ledger
 			soft.ReaderObject += c.Soft.ReaderObject
 			formerSeen := false
-			for _, r := range c.Reads {
+			for ri, r := range c.Reads {
+				run.Count("performed-by:" + StageOf(c.H.Reads, ri))
+				if r.Real.Unreached {
+					run.Count("performed-by:stage-not-reached-by-the-dispatch,read-on-the-request-all-the-same")
+				}
+				if r.Read.Same && ri > 0 {
+					// a later ReadEntity on a request object that has been through ReadEntity before
+					prev := c.Reads[ri-1].Read
+					restored := bytes.Equal(prev.Body, r.Read.Body) && prev.CT == r.Read.CT && prev.CE == r.Read.CE
+					multi["reads"]++
+					multi[map[bool]string{true: "same-bytes-put-back", false: "another-body-or-headers-put-in-place"}[restored]]++
+					if r.Read.CE == "" || r.Read.CE == "gzip" || r.Read.CE == "deflate" {
+						multi["declared:"+map[string]string{"": "identity", "gzip": "gzip", "deflate": "deflate"}[r.Read.CE]]++
+					} else {
+						multi["declared:another-value"]++
+					}
+					if r.Read.Faithful {
+						multi["faithful:"+map[string]string{"": "identity", "gzip": "gzip", "deflate": "deflate"}[r.Read.Coding]]++
+						if r.Real.Class == "ok" {
+							multi["faithful-read-back-equal"]++
+						}
+					}
+					if prev.CE == "gzip" || prev.CE == "deflate" {
+						multi["after-a-read-that-installed-a-decompressor"]++
+					}
+					multi["by:"+StageOf(c.H.Reads, ri)]++
+				}
 				if r.F61 {
 					// class of the repaired finding F61: counted, never excused
 					coding := r.Read.CE
@@ -860,6 +916,7 @@ func Check(run *report.Run, nReads int) error {
 		"same_ledger_acquire_use_release": soft.Ledger, "same_reader_object_bounded_provider": soft.ReaderObject,
 		"note": "measured, not demanded: the property constrains the value read back / that an error is returned, no panic, history independence and the release discipline (Spec.C16.ledgerOK)"}
 	run.Extra["histories"] = histories
+	run.Extra["later_reads_on_the_same_request_object"] = multi
 	run.Extra["reads_alone_on_fresh_provider"] = reads
 	run.Extra["xml_characters_replaced_by_generator"] = ExcludedForXML
 	run.Extra["strings_that_look_like_escape_syntax"] = EscapeLikeStrings
@@ -873,6 +930,12 @@ func Check(run *report.Run, nReads int) error {
 	// both codings (measured over seeds 1–3 at 4000 reads: 418–455 reads ≈ 11 %, gzip 351–383, deflate 67–72;
 	// the floors are about a fifth of that)
 	if nReads >= 2000 {
+		// measured at 4000 reads: ≈ 20 % of the reads are later reads on the same request, ≈ 5 % faithful
+		// coded bodies among them; the floors are about a fifth of that
+		if multi["reads"] < nReads/25 || multi["faithful:gzip"] < nReads/200 || multi["faithful:deflate"] < nReads/800 || multi["by:route-function"] == 0 || multi["by:direct"] == 0 {
+			return fmt.Errorf("the stream hardly performs more than one ReadEntity on one request (%d of %d reads; faithful gzip %d, deflate %d): state kept on the request object would go unnoticed",
+				multi["reads"], reads, multi["faithful:gzip"], multi["faithful:deflate"])
+		}
 		floor, each := nReads/50, nReads/400
 		if former["reads"] < floor || former["gzip"] < each || former["deflate"] < each || former["answered:err"] == 0 {
 			return fmt.Errorf("the stream hardly visits the class of the repaired finding F61 (%d of %d reads: gzip %d, deflate %d; at least %d, %d, %d expected): a regression there would go unnoticed",
